@@ -350,7 +350,7 @@ Section Hash.
     dirst s' = Some d /\ inputs s' = Some ins /\ exists_ s' = true.
   Proof.
     intros I. unfold cook_checkout. cbn zeta.
-    set (p := if exists_ s then [] else [MMkdir; MReset 0%N; MClrDir]).
+    set (p := if exists_ s then [] else [MMkdir; MResetEmpty]).
     set (s1 := exec p s).
     assert (Hp : (forall t, In t (crash_traces p) -> InvC (exec t s)) /\ InvC s1 /\ exists_ s1 = true /\
                  (exists_ s = false -> result s1 = None)).
@@ -387,10 +387,8 @@ Section Hash.
       split.
       + intros t Ht. apply crash_traces_app in Ht. destruct Ht as [Ht|(t' & -> & Ht)].
         * now apply P1.
-        * rewrite exec_app. fold s1. crash_cases Ht; cbn [Model.exec fold_left]; try exact I1.
-          unfold InvC in *; cbn. intros. eapply I1; eauto.
-      + rewrite exec_app. fold s1. cbn. rewrite Hc. repeat split; auto.
-        unfold InvC; cbn. intros. rewrite Hc in *. congruence.
+        * rewrite exec_app. fold s1. crash_cases Ht; cbn [Model.exec fold_left]; exact I1.
+      + rewrite exec_app. fold s1. cbn. rewrite Hr, Hc. repeat split; auto.
   Qed.
 
   Lemma cook_checkout_noop c d ins s :
